@@ -1400,9 +1400,12 @@ export class AllOfRuntype extends BaseRuntype {
   }
   schema(ctx: SchemaContext): JSONSchema7 {
     const schemas = this.schemas.map((it) => it.schema(ctx));
-    const merged = tryMergeAllOfObjectSchemas(schemas);
-    if (merged != null) {
-      return annotateSchema(this.metadata, merged);
+    // an index signature also constrains the keys the other members declare: merging would drop that
+    if (!this.schemas.some(hasIndexSignature)) {
+      const merged = tryMergeAllOfObjectSchemas(schemas);
+      if (merged != null) {
+        return annotateSchema(this.metadata, merged);
+      }
     }
 
     return annotateSchema(this.metadata, {
@@ -1454,6 +1457,10 @@ export class AllOfRuntype extends BaseRuntype {
       s.hash256(ctx);
     }
   }
+}
+
+function hasIndexSignature(it: Runtype): boolean {
+  return it instanceof ObjectRuntype && it.hasIndexSignature();
 }
 
 const MERGEABLE_OBJECT_SCHEMA_KEYS = new Set(["type", "properties", "required", "additionalProperties"]);
@@ -2086,6 +2093,9 @@ export class ObjectRuntype extends BaseRuntype {
 
     const content = members.map((it) => it.member).join(", ");
     return `{ ${content} }`;
+  }
+  hasIndexSignature(): boolean {
+    return this.indexedPropertiesParser.length > 0;
   }
   override describeChildren(): Runtype[] {
     return [
